@@ -272,3 +272,34 @@ func H_C09_refused() {
 	vAssert(s2.Close() == nil, "close-ok")
 	vCover("ran")
 }
+
+func init() { vHarnesses["H_C09_short_reads"] = H_C09_short_reads }
+
+// segments are decoded through decompressing readers, which may hand out fewer bytes per Read call than asked for
+// (the real gzip reader: at most one 32 KiB window): three documents with every modality, Flush, Close, reopen with
+// fresh templates while every gzip Read delivers at most 1 / 3 / 7 bytes — everything is still found
+func H_C09_short_reads() {
+	vStoreTemplates = []int{0, 1, 2, 3}[vChoose("templates", 4)]
+	dir := vTempDir()
+	s, err := OpenPersistentHybridIndex(vFreshStoreCfg(dir, false))
+	vAssert(err == nil, "open-ok")
+	for _, d := range vStoreDocs[:3] {
+		vAssert(s.AddWithID(d.id, []float32{d.vec}, d.text, map[string]interface{}{"c": d.c}) == nil, "add-ok")
+	}
+	if vChoose("flush_first", 2) == 1 {
+		vAssert(s.Flush() == nil, "flush-ok")
+	}
+	vAssert(s.Close() == nil, "close-ok")
+	vGzipReadChunk([]int{1, 3, 7}[vChoose("bytes_per_read", 3)])
+	s2, err2 := OpenPersistentHybridIndex(vFreshStoreCfg(dir, false))
+	vAssert(err2 == nil, "reopen-ok")
+	if err2 != nil {
+		return
+	}
+	for _, d := range vStoreDocs[:3] {
+		vStoreFinds(s2, d, "after-restart-with-short-reads")
+	}
+	vGzipReadChunk(0)
+	vAssert(s2.Close() == nil, "close-ok")
+	vCover("ran")
+}
